@@ -317,7 +317,12 @@ func (e *Env) eval(x *Expr) Val {
 		ne2 := *ne
 		ne2.underQuant = true
 		vc.quantDepth++
+		nq := len(vc.quantVars)
+		for _, qv := range x.Vars {
+			vc.quantVars = append(vc.quantVars, qv.Name)
+		}
 		body := ne2.evalBool(x.Args[0])
+		vc.quantVars = vc.quantVars[:nq]
 		vc.quantDepth--
 		return Val{fmt.Sprintf("(%s (%s) %s)", x.Op, strings.Join(decl, " "), body), SBool, nil}
 	case "sel":
